@@ -681,3 +681,146 @@ class AddDescriptorAllOrNothing(_c02._DescrTxBase):
         ex.oblige(st, 'matching_state_is_added', z3.Implies(self.state_given.e, z3.And(
             self.state_handle.e == self.handle.e,
             st.ghost['c:add_state'] == Val.ref(self.state.e) if 'c:add_state' in st.ghost else z3.BoolVal(False))))
+
+
+class _DescrTxStates(_c02._DescrTxBase):
+    """descriptor transaction with a descriptor item for `handle` and one state-update dict"""
+    prop = 'C03'
+    field_types = {'DescriptorVersion': 'int', 'StateVersion': 'int', 'is_context_descriptor': 'bool', 'is_context_state': 'bool'}
+
+    def mk_states(self, b):
+        st = b.st
+        ids = b.ex.ctx.builtin_class_ids
+        o = self.mk(b)
+        self.in_tx = b.bool('descriptor_in_transaction')
+        self.tx_descr_version = b.int('tx_descriptor_version')
+        self.is_ctx_descr = b.bool('is_context_descriptor')
+        self.tx_descr = b.obj('descriptor_in_tx', DescriptorVersion=self.tx_descr_version, Handle=self.handle,
+                              is_context_descriptor=self.is_ctx_descr)
+        self.tx_item = b.obj('descriptor_item', new=self.tx_descr, old=self.stored)
+        key = Val.str(self.handle.e)
+        dk, dv = z3.Select(st.get_arr('DK'), self.upd.e), z3.Select(st.get_arr('DV'), self.upd.e)
+        st.assume(z3.Select(dk, key) == self.in_tx.e)
+        st.assume(z3.Implies(self.in_tx.e, z3.Select(dv, key) == Val.ref(self.tx_item.e)))
+        self.supd = b.obj('state_updates')
+        st.assume(z3.Select(st.get_arr('C'), self.supd.e) == ids['dict'])
+        st.assume(z3.Select(st.get_arr('DN'), self.supd.e) >= 0)
+        b.distinct(o, self.tx_descr, self.tx_item, self.supd, self.upd, self.stored)
+        return o
+
+    def states_unchanged(self, st0, st):
+        k = z3.Const('k!su', Val)
+        dk0, dk1 = z3.Select(st0.get_arr('DK'), self.supd.e), z3.Select(st.get_arr('DK'), self.supd.e)
+        dv0, dv1 = z3.Select(st0.get_arr('DV'), self.supd.e), z3.Select(st.get_arr('DV'), self.supd.e)
+        return z3.ForAll([k], z3.And(z3.Select(dk1, k) == z3.Select(dk0, k),
+                                     z3.Implies(z3.Select(dk0, k), z3.Select(dv1, k) == z3.Select(dv0, k))))
+
+    def state_item(self, st, key):
+        dk, dv = z3.Select(st.get_arr('DK'), self.supd.e), z3.Select(st.get_arr('DV'), self.supd.e)
+        item = Val.oid(z3.Select(dv, key))
+        return z3.Select(dk, key), z3.Select(st.get_arr('f:old'), item), z3.Select(st.get_arr('f:new'), item)
+
+
+@register
+class DescrTxGetState(_DescrTxStates):
+    id = 'C03.descriptor_transaction_get_state'
+    target = f'{_c02.TR}:DescriptorTransaction.get_state'
+    doc = ('DescriptorTransaction.get_state(handle): refused without any change for an empty handle, a descriptor that is '
+           'not part of the transaction, a context descriptor, or a state that is already part of it; otherwise the caller '
+           'gets a COPY of the stored state with StateVersion + 1, queued with the stored state as old; the stored state '
+           'is not written')
+
+    def setup(self, b):
+        st = b.st
+        o = self.mk_states(b)
+        self.sv = b.int('stored_state_version')
+        self.mstate = b.obj('stored_state', StateVersion=self.sv, DescriptorHandle=self.handle)
+        b.distinct(o, self.mstate, self.supd, self.upd)
+        return o, [self.handle], {}
+
+    def callees(self, ex):
+        def get_one(ex_, st, args, kwargs):
+            st.ghost['c:asked'] = st.box(args[0])
+            return [(st.fork(), Raise(ex_.mk_exc('KeyError', 'get_one'))), (st, self.mstate)]
+        return {f'{_c02.TR}:DescriptorTransaction._get_states_update': Pure(lambda e, s, a, k: self.supd, name='_get_states_update'),
+                '*.get_one': Pure(get_one, name='states.descriptor_handle.get_one(handle) (C11; KeyError when unknown)'),
+                f'{_c02.TR}:TransactionItem': self.item_summary(), 'TransactionItem': self.item_summary()}
+
+    def hooks(self, ex):
+        return _c02.CopyHooks()
+
+    def post(self, ex, st0, st, outcome, b):
+        key = Val.str(self.handle.e)
+        already = z3.Select(z3.Select(st0.get_arr('DK'), self.supd.e), key)
+        if outcome[0] == 'exc':
+            ex.oblige(st, 'rejected_call_changes_nothing', z3.And(self.states_unchanged(st0, st), self.unchanged_queue(st0, st),
+                                                                Val.i(field(st, self.mstate, 'StateVersion')) == self.sv.e),
+                      info={'exc': repr(outcome[1])})
+            return
+        has, old, new = self.state_item(st, key)
+        copies = st.ghost.get('copies', ())
+        ex.oblige(st, 'accepted_only_when_the_descriptor_is_in_the_transaction_and_the_state_is_not',
+                  z3.And(self.in_tx.e, z3.Not(already), z3.Not(self.is_ctx_descr.e), z3.Length(self.handle.e) > 0))
+        ex.oblige(st, 'copy_with_state_version_plus_one_is_queued_and_returned', z3.And(
+            has, old == Val.ref(self.mstate.e), new == Val.ref(copies[-1][0]), copies[-1][1] == self.mstate.e,
+            Val.i(z3.Select(st.get_arr('f:StateVersion'), copies[-1][0])) == self.sv.e + 1,
+            st.box(outcome[1]) == new) if copies else z3.BoolVal(False))
+        ex.oblige(st, 'stored_state_not_written', Val.i(field(st, self.mstate, 'StateVersion')) == self.sv.e)
+        ex.oblige(st, 'descriptor_queue_untouched', self.unchanged_queue(st0, st))
+
+
+@register
+class DescrTxAddState(_DescrTxStates):
+    id = 'C03.descriptor_transaction_add_state'
+    target = f'{_c02.TR}:DescriptorTransaction.add_state'
+    doc = ('DescriptorTransaction.add_state(state): refused without changing the transaction when the descriptor of the '
+           'state is not part of it or a state is already queued under its key; otherwise the state is queued as new '
+           '(old = None) under its key (Handle for context states, DescriptorHandle else), refers to the descriptor of '
+           'THIS transaction and carries its DescriptorVersion; the remembered version is applied iff requested')
+
+    def setup(self, b):
+        st = b.st
+        o = self.mk_states(b)
+        self.is_ctx = b.bool('state_is_context_state')
+        self.shandle = b.any('state.Handle', maybe_none=True)
+        st.assume(z3.Or(Val.is_none(self.shandle.e), z3.And(Val.is_str(self.shandle.e), z3.Length(Val.s(self.shandle.e)) > 0)))
+        self.state = b.obj('state_container', DescriptorHandle=self.handle, is_context_state=self.is_ctx, Handle=self.shandle,
+                           DescriptorVersion=b.int('state_descriptor_version'))
+        self.adjust = b.bool('adjust_state_version')
+        b.distinct(o, self.state, self.supd, self.upd, self.tx_descr)
+        st.ghost['c:set_version'] = ()
+        return o, [self.state], {'adjust_state_version': self.adjust}
+
+    optional_fields = ('Handle',)
+
+    def callees(self, ex):
+        def set_version(ex_, st, args, kwargs):
+            st.ghost['c:set_version'] = st.ghost['c:set_version'] + (st.box(args[0]),)
+            return NONE
+
+        def uuid4(ex_, st, args, kwargs):
+            u = st.alloc('UUID')
+            st.write_field(u, 'hex', vstr(z3.String('fresh_uuid_hex')))
+            return u
+        return {f'{_c02.TR}:DescriptorTransaction._get_states_update': Pure(lambda e, s, a, k: self.supd, name='_get_states_update'),
+                '*.set_version': Pure(set_version, name='table.set_version(state) (C02.set_version)'),
+                'uuid.uuid4': Pure(uuid4, name='uuid.uuid4()', trusted=True),
+                f'{_c02.TR}:TransactionItem': self.item_summary(), 'TransactionItem': self.item_summary()}
+
+    def post(self, ex, st0, st, outcome, b):
+        if outcome[0] == 'exc':
+            ex.oblige(st, 'rejected_call_leaves_the_transaction_as_it_was', z3.And(self.states_unchanged(st0, st), self.unchanged_queue(st0, st)),
+                      info={'exc': repr(outcome[1])})
+            return
+        key = z3.If(self.is_ctx.e, field(st, self.state, 'Handle'), Val.str(self.handle.e))
+        has, old, new = self.state_item(st, key)
+        ex.oblige(st, 'accepted_only_with_its_descriptor_in_the_transaction', self.in_tx.e)
+        ex.oblige(st, 'queued_as_new_state_under_its_key', z3.And(has, Val.is_none(old), new == Val.ref(self.state.e),
+                                                                 z3.Not(z3.Select(z3.Select(st0.get_arr('DK'), self.supd.e), key))))
+        ex.oblige(st, 'refers_to_the_descriptor_of_this_transaction', z3.And(
+            field(st, self.state, 'descriptor_container') == Val.ref(self.tx_descr.e),
+            Val.i(field(st, self.state, 'DescriptorVersion')) == self.tx_descr_version.e))
+        sv = st.ghost['c:set_version']
+        ex.oblige(st, 'remembered_version_applied_iff_requested', z3.And(
+            z3.Implies(self.adjust.e, z3.BoolVal(len(sv) == 1)), z3.Implies(z3.Not(self.adjust.e), z3.BoolVal(len(sv) == 0))))
+        ex.oblige(st, 'descriptor_queue_untouched', self.unchanged_queue(st0, st))
